@@ -1,9 +1,15 @@
 /-
-C09 — the region of known finding C09-stringize-backslash-outside-literal is exact at the `#` operator:
-`quote_string(join_tokens(arg))` is the string of C11 6.10.3.2p2 **iff** every token of the argument is literal-safe
-(`strSafeTok`: a string literal, a character constant, or a token without `\` and `"`).  The "if" is
-`stringize_eq_spec` (Lemmas/PPSubst.lean); this file proves the "only if": one token that is not literal-safe makes chibicc's string
-strictly longer than the standard's (every `\`/`"` outside a literal is doubled, nothing ever gets shorter).
+C09 — the `#` operator.
+
+1. The repaired defect (`fix:` 6fecbd6, former known finding C09-stringize-backslash-outside-literal).  Before the repair
+   `stringize` was `quote_string(join_tokens(arg))` (`stringizeOld` below).  That formula gives the string of C11 6.10.3.2p2
+   only if every token of the argument is literal-safe (`strSafeTok`: a string literal, a character constant, or a token
+   without `\` and `"`): one token that is not makes the old string strictly longer than the standard's (every `\`/`"`
+   outside a literal is doubled, nothing ever gets shorter) — `stringizeOld_ne_spec`.  The present `stringize` equals
+   the specification for every argument (`stringize_eq_spec`, Lemmas/PPSubst.lean).
+2. What the model leaves out of the C function: `stringize` hands its buffer to `tokenize()`.  `stringize_wellformed`:
+   if every token of the argument is literal-safe and no spelling contains a new-line character, the buffer is exactly
+   one string literal for the lexer (`Lex.lexOne … = .one .str`), so `tokenize` returns precisely the token of the model.
 -/
 import ChibiVerif.Model.PP
 import ChibiVerif.Spec.PPSpec
@@ -11,6 +17,10 @@ import ChibiVerif.Lemmas.PPSubst
 
 namespace ChibiVerif.PP
 open ChibiVerif.Spec.PPSpec
+
+/-- `stringize` as it was before `fix:` 6fecbd6: `new_str_token(join_tokens(arg, NULL), hash)` -/
+def stringizeOld (hash : Tok) (arg : List Tok) : Tok :=
+  { kind := .str, text := quoteString (joinTokens arg), hasSpace := hash.hasSpace, atBol := hash.atBol, line := hash.line }
 
 theorem escChars_cons (c : Char) (r : List Char) :
     escChars (c :: r) = (if c == '\\' || c == '"' then ['\\', c] else [c]) ++ escChars r := by
@@ -108,9 +118,9 @@ theorem foldl_len_stringize : ∀ (ts : List Tok) (accJ accS : String),
         rw [hlenS, hlenJ]; omega
       · exact Or.inr ⟨t, ht, hun⟩
 
-/-- one token with a `\` or `"` outside a literal, and chibicc's stringized text is not the standard's -/
-theorem stringize_ne_spec (hash : Tok) (arg : List Tok) (h : ∃ t ∈ arg, strSafeTok t = false) :
-    (stringize hash arg).text ≠ (stringizeSpec hash arg).text := by
+/-- one token with a `\` or `"` outside a literal, and the OLD stringized text is not the standard's -/
+theorem stringizeOld_ne_spec (hash : Tok) (arg : List Tok) (h : ∃ t ∈ arg, strSafeTok t = false) :
+    (stringizeOld hash arg).text ≠ (stringizeSpec hash arg).text := by
   intro heq
   have hlen : (stringizeText arg).toList.length < (escChars (joinTokens arg).toList).length := by
     cases arg with
@@ -124,11 +134,111 @@ theorem stringize_ne_spec (hash : Tok) (arg : List Tok) (h : ∃ t ∈ arg, strS
       · exact Or.inl (strPiece_len_lt u hun)
       · exact Or.inr ⟨u, hu, hun⟩
   have h2 := congrArg (fun s : String => s.toList.length) heq
-  simp only [stringize, stringizeSpec, quoteString, String.toList_ofList, String.toList_append, List.length_append,
+  simp only [stringizeOld, stringizeSpec, quoteString, String.toList_ofList, String.toList_append, List.length_append,
     List.length_cons, List.length_nil] at h2
   have h3 : (escChars (joinTokens arg).toList).length =
       (List.flatMap (fun c => if (c == '\\' || c == '"') = true then ['\\', c] else [c]) (joinTokens arg).toList).length := rfl
   have h4 : ("\"" : String).toList.length = 1 := by decide
   omega
+
+/-! ## the buffer of `stringize` is one string literal -/
+
+/-- character lists in which every `\` starts a complete two-character escape and no `"` or new-line stands outside one:
+    `string_literal_end` passes over them and is back at a character boundary -/
+inductive Closed : List Char → Prop
+  | nil : Closed []
+  | plain (c : Char) (r : List Char) : c ≠ '"' → c ≠ '\\' → c ≠ '\n' → Closed r → Closed (c :: r)
+  | esc (d : Char) (r : List Char) : Closed r → Closed ('\\' :: d :: r)
+
+theorem Closed.append {a b : List Char} (ha : Closed a) (hb : Closed b) : Closed (a ++ b) := by
+  induction ha with
+  | nil => simpa using hb
+  | plain c r h1 h2 h3 _ ih => exact Closed.plain c _ h1 h2 h3 ih
+  | esc d r _ ih => exact Closed.esc d _ ih
+
+/-- `string_literal_end` on closed text followed by the closing quote: it stops exactly at that quote -/
+theorem strLitLen_closed {cs : List Char} (h : Closed cs) : Lex.strLitLen (cs ++ ['"']) = some (cs.length + 1) := by
+  induction h with
+  | nil => simp [Lex.strLitLen]
+  | plain c r h1 h2 h3 _ ih =>
+    have e1 : (c == '"') = false := by simpa using h1
+    have e2 : (c == '\\') = false := by simpa using h2
+    have e3 : (c == '\n') = false := by simpa using h3
+    rw [List.cons_append, Lex.strLitLen.eq_def]
+    simp only [e1, e2, e3, Bool.false_eq_true, if_false, ih, Option.map_some, List.length_cons]
+  | esc d r _ ih =>
+    have h1 : ('\\' == '"') = false := by decide
+    have h2 : ('\\' == '\n') = false := by decide
+    simp only [List.cons_append, Lex.strLitLen, h1, h2, Bool.false_eq_true, if_false, beq_self_eq_true, if_true, ih,
+      Option.map_some, List.length_cons]
+
+theorem closed_escChars : ∀ (cs : List Char), cs.all (· != '\n') = true → Closed (escChars cs) := by
+  intro cs
+  induction cs with
+  | nil => intro _; exact Closed.nil
+  | cons c r ih =>
+    intro h
+    simp only [List.all_cons, Bool.and_eq_true, bne_iff_ne, ne_eq] at h
+    rw [escChars_cons]
+    by_cases hc : (c == '\\' || c == '"') = true
+    · simp only [hc, if_true, List.cons_append, List.nil_append]
+      exact Closed.esc c _ (ih h.2)
+    · have hc' : (c == '\\' || c == '"') = false := by simpa using hc
+      simp only [hc', Bool.false_eq_true, if_false, List.cons_append, List.nil_append]
+      simp only [Bool.or_eq_false_iff, beq_eq_false_iff_ne, ne_eq] at hc'
+      exact Closed.plain c _ hc'.2 hc'.1 h.1 (ih h.2)
+
+theorem closed_plain : ∀ (cs : List Char), (cs.any fun c => c == '\\' || c == '"') = false → cs.all (· != '\n') = true →
+    Closed cs := by
+  intro cs h1 h2
+  have := closed_escChars cs h2
+  rwa [escChars_id cs h1] at this
+
+/-- a token is literal-safe and its spelling has no new-line character (no token of `tokenize` has one) -/
+def strzOkTok (t : Tok) : Bool := strSafeTok t && t.text.toList.all (· != '\n')
+
+theorem closed_strzCopy (t : Tok) (h : strzOkTok t = true) :
+    Closed (strzCopy (t.kind == .str || t.kind == .other) t.text.toList) := by
+  simp only [strzOkTok, Bool.and_eq_true] at h
+  cases hk : (t.kind == .str || t.kind == .other)
+  · rw [strzCopy_false]
+    have hs := h.1
+    simp only [strSafeTok, Bool.or_assoc] at hs
+    rw [← Bool.or_assoc, hk, Bool.false_or] at hs
+    exact closed_plain _ (by simpa using hs) h.2
+  · rw [strzCopy_true]
+    exact closed_escChars _ h.2
+
+theorem closed_strzLoop : ∀ (arg : List Tok) (first : Bool), (∀ t ∈ arg, strzOkTok t = true) → Closed (strzLoop first arg) := by
+  intro arg
+  induction arg with
+  | nil => intro _ _; exact Closed.nil
+  | cons t ts ih =>
+    intro first h
+    rw [strzLoop]
+    refine Closed.append ?_ (Closed.append (closed_strzCopy t (h t (by simp))) (ih false (fun u hu => h u (by simp [hu]))))
+    split
+    · exact Closed.plain ' ' [] (by decide) (by decide) (by decide) Closed.nil
+    · exact Closed.nil
+
+/-- `tokenize(buf)` inside `stringize` sees exactly one token, a string literal: the model's `stringize` leaves nothing out -/
+theorem stringize_wellformed (hash : Tok) (arg : List Tok) (h : ∀ t ∈ arg, strzOkTok t = true) :
+    Lex.lexOne (stringize hash arg).text = .one .str := by
+  have hlen := strLitLen_closed (closed_strzLoop arg true h)
+  have hq : ('"' : Char).isDigit = false := by decide
+  simp only [Lex.lexOne, stringize, String.toList_ofList, Lex.lexFirst, Lex.startsWith]
+  have h1 : ("//".toList.isPrefixOf ('"' :: (strzLoop true arg ++ ['"']))) = false := by
+    show (['/', '/'].isPrefixOf ('"' :: (strzLoop true arg ++ ['"']))) = false
+    simp [List.isPrefixOf]
+  have h2 : ("/*".toList.isPrefixOf ('"' :: (strzLoop true arg ++ ['"']))) = false := by
+    show (['/', '*'].isPrefixOf ('"' :: (strzLoop true arg ++ ['"']))) = false
+    simp [List.isPrefixOf]
+  simp only [h1, h2, Bool.false_eq_true, if_false, hq, Bool.false_or]
+  have h3 : (('"' : Char) == '.') = false := by decide
+  simp only [h3, Bool.false_and, Bool.false_eq_true, if_false, beq_self_eq_true, if_true, List.drop_one, List.tail_cons, hlen,
+    List.length_cons, List.length_append, List.length_nil]
+  have : (1 + (strzLoop true arg).length.succ == (strzLoop true arg).length + (0 + 1) + 1) = true := by
+    simp only [beq_iff_eq]; omega
+  simp_all
 
 end ChibiVerif.PP
